@@ -189,10 +189,12 @@ def tlsAnswer (hs : Bytes) : Except Err Bytes :=
   | .error e => .error e
 
 /-- Well-formed request head: a known method, no CRLF inside the request line or a header line,
-no colon inside a header name. -/
+no colon inside a header name, no header name that begins with white space (that would be a folded
+continuation of the previous header). -/
 def HttpHead.WF (h : HttpHead) : Prop :=
   h.method ∈ httpMethods ∧ noCRLF (h.method ++ [32] ++ h.target) = true ∧
-  ∀ kv ∈ h.headers, noCRLF (kv.1 ++ [58] ++ kv.2) = true ∧ 58 ∉ kv.1
+  ∀ kv ∈ h.headers, noCRLF (kv.1 ++ [58] ++ kv.2) = true ∧ 58 ∉ kv.1 ∧
+    kv.1.head? ≠ some 32 ∧ kv.1.head? ≠ some 9
 
 /-- The block holds exactly the bytes `[off, stop)` of the stream `S`. -/
 def Within (S : Bytes) (b : Block) : Prop := b.stop ≤ S.length ∧ b.data = slice S b.off b.stop
@@ -221,5 +223,18 @@ def isNameChar (c : Nat) : Bool := !isAsciiSpace c && c != 58 && c != 91 && c !=
 
 /-- What holds of the flow state between packets. -/
 def Flow.Inv (f : Flow) : Prop := f.pkt.data.head? = some [] ∧ (f.established = true → f.withheld = [])
+
+/-- `d` is the (trimmed, non-empty) value of a complete header line of `b` whose name is `Host`:
+the line starts the buffer or follows a CRLF, is followed by a CRLF, does not begin with white space
+(so it is not a folded continuation), and its name — the part before the first colon — is `Host`
+in any letter case. -/
+def HostLineIn (b d : Bytes) : Prop :=
+  ∃ pre k v rest, b = pre ++ (k ++ 58 :: v) ++ crlf ++ rest ∧ (pre = [] ∨ ∃ p, pre = p ++ crlf) ∧
+    58 ∉ k ∧ (k ++ 58 :: v).head? ≠ some 32 ∧ (k ++ 58 :: v).head? ≠ some 9 ∧
+    isHostKey (trimSpace k) = true ∧ d = trimSpace v ∧ d ≠ []
+
+/-- The name the stream sniffer reports is the normalised form of a name the buffer carries. -/
+def ReportedFrom (buf n : Bytes) : Prop :=
+  ∃ d, n = normalizeDomain d ∧ (CarriedIn buf d ∨ HostLineIn buf d)
 
 end DaeVerif.C06
